@@ -16,6 +16,8 @@ from . import forward
 
 from .c13 import lockdown
 
+from .c07 import half_plus_q_contexts, ELEMENT_SEPARATORS
+
 META = {
     'explanation': (
         "Independence of neighbouring elements on arbitrary text is not "
@@ -31,6 +33,20 @@ META = {
         "lots_qqs = lots + qqs, ilots maps lots."),
     'families': ['SEP', 'DEFUSE', 'PAIR', 'RX-LANG', 'FORWARD', 'DEADPARAM', 'SIB-DEFAULTS'],
 }
+
+
+def _chain_language(ctx):
+    """every clean chain of halves and quarters, in any order, is unpacked as ONE aliquot"""
+    import re as _re
+    from .. import rx as _rx
+    from . import families as _F
+    rv = ctx.fold.get('rgxlib.aliquots', 'aliquot_unpacker_regex')
+    cex = ctx.cache(('inc', _F.ALIQUOT_CHAIN, rv.pattern, rv.flags),
+                    lambda: _rx.included(_F.ALIQUOT_CHAIN, 0, rv.pattern, rv.flags))
+    ctx.check(cex is None, 'RX-LANG', 'clean aliquot chains (halves and quarters in any order) <= L(aliquot_unpacker_regex)',
+              'family included',
+              f"the chain {cex!r} is no longer matched as a whole by aliquot_unpacker_regex: the aliquot is dropped / cut "
+              f"in two by TractParser", key='RX-LANG|aliquot_unpacker_regex|chains', witness=repr(cex))
 
 
 def check(ctx):
@@ -106,12 +122,25 @@ def check(ctx):
     ctx.shape(norm(lq.node.body[-1]) == 'return self.lots + self.qqs', 'DEFUSE', 'lots_qqs == lots + qqs')
     il = ctx.repo.func('Tract.ilots')
     ctx.shape('for lt in self.lots' in norm(il.node.body[-1]), 'DEFUSE', 'ilots mirrors lots element-wise')
+    # the integer is taken from the part after the 'L' only: a lot division
+    # ('N2 of L7') contains digits of its own
+    src = norm(il.node.body[-1]).replace('"', "'")
+    after_l = any(x in src for x in (".split('L')[-1]", ".rsplit('L', 1)[-1]", ".rpartition('L')[2]", ".rpartition('L')[-1]"))
+    all_digits = any(isinstance(c, (ast.GeneratorExp, ast.ListComp)) and isinstance(c.generators[0].iter, ast.Name)
+                     and any(isinstance(x, ast.Attribute) and x.attr in ('isdigit', 'isdecimal', 'isnumeric') for x in ast.walk(c))
+                     for c in ast.walk(il.node)) or "re.sub('\\\\D'" in src or "re.sub('[^0-9]'" in src
+    ctx.tri(after_l, all_digits and not after_l, 'DEFUSE', "ilots reads the number after the 'L' only",
+            detail_bad="ilots collects every digit of the lot string: the '2' of a half division ('N2 of L7') ends up in "
+                       "the lot number (27), so ilots no longer mirrors lots",
+            key="DEFUSE|Tract.ilots|digits", where=il.loc)
     ctx.attempt(_dups)
     ctx.attempt(_unpack_lots)
     ctx.attempt(_acreage)
     ctx.attempt(forward.check_all, module_suffixes=('unpack.unpackers', 'tract.tract_parse', 'tract.tract'))
     ctx.attempt(lockdown, ctx.repo.func('Tract.parse'), only=('include_lot_divs', 'suppress_lot_divs', 'parse_qq'))
     ctx.attempt(common.embedded_case_consistency, modules=('rgxlib.lots', 'rgxlib.aliquots'))
+    ctx.attempt(_chain_language)
+    ctx.attempt(half_plus_q_contexts, ELEMENT_SEPARATORS)
 
 
 def _dups(ctx):
